@@ -126,7 +126,7 @@ class LanguageClassesFactory:
                             field.asset.name
                         }
                 }
-            if field.maximum:
+            if field.maximum is not None:
                 assoc_json_entry['properties'][field.fieldname]\
                     ['maxItems'] = field.maximum
 
